@@ -930,7 +930,10 @@ def run(scen, ctx):
         def _ubuild(m):
             if isinstance(m, str):
                 return S[m]
-            return t.Union[tuple(_ubuild(x) for x in m)]
+            parts = tuple(_ubuild(x) for x in m)
+            for _clear in getattr(t, '_cleanups', []):      # also between the subscriptions of ONE nested spelling
+                _clear()
+            return t.Union[parts]
         # typing memoises `Union[...]` by its arguments, and two unions with the same members in ANOTHER order are equal: a nested
         # union may come back from that cache in the order of an earlier, different spelling (history of the process, not the
         # normalisation).  The caches are emptied so that what is compared is the normalisation itself.
